@@ -143,6 +143,20 @@ def _more(o, a, b):
     elif o == "percentile":
         from dimarray.lib import percentile
         percentile(a, [50], axis="x")
+    elif o == "percentile_all_axes":
+        # the library's percentile function along every axis, by name and by position, one and several percentiles
+        # (dimarray.lib.stats.quantile is neither exported nor documented: not a public operation, see DESIGN 11.6d)
+        from dimarray.lib import percentile
+        af = a.copy()
+        af.axes["x"][:] = [30.5, 10.5, 20.5]
+        for ax in ("x", "y", 0, 1):
+            percentile(a, [25, 75], axis=ax)
+            percentile(a, 50, axis=ax)
+            r = percentile(af, [25, 75], axis=ax)
+            if af.axes["x"].values.tolist() != [30.5, 10.5, 20.5]:
+                raise AssertionError("percentile(axis=%r) changed the labels of its operand's axis x" % (ax,))
+            if r.axes[0].values.tolist() != [25, 75]:
+                raise AssertionError("percentile(axis=%r): the percentile axis reads %s" % (ax, r.axes[0].values.tolist()))
     elif o == "argmax":
         a.argmax(axis="x")
         a.argmin()
